@@ -54,6 +54,8 @@ type Contract struct {
 	Ghost      []string
 	Exceptional []*Clause // onpanic ensures
 	Witnesses   []*Witness
+	Splits      [][]*Clause // case splits applied to every ensures clause (cartesian product)
+	Unfold      []string // callees (by key suffix) to inline in this function even when they have loops / contracts
 }
 
 // Witness: a ghost out-parameter; "witness s = expr after callee#n" binds s to expr evaluated right
@@ -271,6 +273,18 @@ func (cs *ContractSet) parseFile(path, pkgPath string) error {
 				tgt = tgt[:hi]
 			}
 			cur.Witnesses = append(cur.Witnesses, &Witness{Name: strings.TrimSpace(rest[:eqi]), Expr: c, Callee: tgt, N: n})
+		case "split":
+			var alts []*Clause
+			for _, a := range strings.Split(rest, " | ") {
+				c, err := mk(strings.TrimSpace(a))
+				if err != nil {
+					return err
+				}
+				alts = append(alts, c)
+			}
+			cur.Splits = append(cur.Splits, alts)
+		case "unfold":
+			cur.Unfold = append(cur.Unfold, strings.Fields(rest)...)
 		case "property":
 			cur.Props = append(cur.Props, strings.Fields(rest)...)
 		case "arith":
